@@ -92,7 +92,9 @@ Definition raw_ (s : st) : result (list N * st) :=
   end.
 
 (* enr.go:204-233, the loop over key/value pairs.  [prev] = None in the first
-   iteration (i = 0), Some prevkey afterwards.  The loop ends at rlp.EOL when
+   iteration (i = 0), Some prevkey afterwards — the Go test is `i > 0`, so an
+   EMPTY previous key is [Some []], not [None], and is compared like any other
+   key.  The loop ends at rlp.EOL when
    reading a key.  Every iteration consumes at least two input bytes; fuel =
    length of the record + 1 is never exhausted. *)
 Fixpoint pairs_ (fuel : nat) (prev : option (list N)) (s : st)
